@@ -62,10 +62,22 @@ def key_agg(k):
 
 def concrete_key(eng, keyref):
     key = eng.deref(keyref)
-    idx, mode, ident = z3.simplify(key.f[0]), z3.simplify(key.f[1].f[0].disc), z3.simplify(key.f[1].f[1])
-    if not (z3.is_bv_value(idx) and z3.is_bv_value(mode) and z3.is_bv_value(ident)):
-        raise E.Unknown("symbolic key in the key-value world")
-    return (idx.as_long(), mode.as_long(), ident.as_long())
+    while isinstance(key, Ref):
+        key = eng.deref(key)
+    if not (isinstance(key, Agg) and isinstance(key.f.get(1), Agg)):
+        raise E.Unknown("key value of unexpected shape: " + repr(key)[:60])
+    out = []
+    for t in (key.f[0], key.f[1].f[0].disc, key.f[1].f[1]):
+        if isinstance(t, int):
+            out.append(t)
+            continue
+        if not z3.is_expr(t):
+            raise E.Unknown("key component of unexpected kind: " + repr(t)[:60])
+        t = z3.simplify(t)
+        if not z3.is_bv_value(t):
+            raise E.Unknown("symbolic key in the key-value world")
+        out.append(t.as_long())
+    return tuple(out)
 
 
 def new_cursor(st):
